@@ -295,6 +295,30 @@ inline void drive_binary(const char* prop, const char* type, const char* opname,
             }
         }
     }
+    // uniform vectors: every lane holds the same pair (catches "all lanes ..." early exits and shortcuts that only
+    // trigger when the whole vector agrees); plus one odd lane out
+    if (W > 1) {
+        const uint64_t lim = std::min<uint64_t>(n, opt().thorough ? 400000 : 70000);
+        const uint64_t step = n > lim ? n / lim : 1;
+        for (uint64_t j = 0, k = 0; j < n && c.traps < 200000; j += step, ++k) {
+            std::array<T, V::width> a, b;
+            a.fill(pairs[j].a); b.fill(pairs[j].b);
+            if (k % 3 == 2) { const Pair<T>& q = pairs[(j * 7 + 3) % n]; a[k % W] = q.a; b[k % W] = q.b; }
+            std::array<R, V::width> res;
+            volatile bool ok = false;
+            uint32_t cls = pcls((uint64_t)a[0], (uint64_t)b[0], bits) ^ 0x800;
+            VK_GUARDED(cls, ("uniform,a=" + hex(a[0]) + ",b=" + hex(b[0])), { res = op(V(a), V(b)); ok = true; });
+            c.cases++;
+            c.cls_add(cls & 0xFFF);
+            if (!ok) continue;
+            for (unsigned i = 0; i < W; ++i) {
+                R exp;
+                if (!model(a[i], b[i], exp)) continue;
+                c.lanes++;
+                if (!(res[i] == exp)) viol("value", pcls((uint64_t)a[i], (uint64_t)b[i], bits), (int)i, "a=" + hex(a[i]) + ",b=" + hex(b[i]) + ",uniform=1", hex(res[i]), hex(exp));
+            }
+        }
+    }
     end_cell();
 }
 
@@ -331,6 +355,27 @@ inline void drive_unary(const char* prop, const char* type, const char* opname,
                 if (!(res[i] == exp)) {
                     viol("value", ucls((uint64_t)a[i], bits), (int)i, "a=" + hex(a[i]), hex(res[i]), hex(exp));
                 }
+            }
+        }
+    }
+    if (W > 1) {   // uniform vectors (see drive_binary)
+        const uint64_t lim = std::min<uint64_t>(n, opt().thorough ? 400000 : 70000);
+        const uint64_t step = n > lim ? n / lim : 1;
+        for (uint64_t j = 0; j < n && c.traps < 200000; j += step) {
+            std::array<T, V::width> a;
+            a.fill(vals[j]);
+            std::array<R, V::width> res;
+            volatile bool ok = false;
+            uint32_t cls = ucls((uint64_t)a[0], bits) | 0x10;
+            VK_GUARDED(cls, ("uniform,a=" + hex(a[0])), { res = op(V(a)); ok = true; });
+            c.cases++;
+            c.cls_add(cls);
+            if (!ok) continue;
+            for (unsigned i = 0; i < W; ++i) {
+                R exp;
+                if (!model(a[i], exp)) continue;
+                c.lanes++;
+                if (!(res[i] == exp)) viol("value", ucls((uint64_t)a[i], bits), (int)i, "a=" + hex(a[i]) + ",uniform=1", hex(res[i]), hex(exp));
             }
         }
     }
